@@ -49,7 +49,17 @@ def build_coq():
             rc, out = sh("coq_makefile -f _CoqProject -o Makefile", cwd=COQ, timeout=120)
             if rc != 0:
                 return False, out
-        rc, out = sh("timeout 3000 make -j16 2>&1", cwd=COQ, timeout=3100)
+        # -k: a file that no longer checks must not keep the rest (models, Coq-side harnesses, other
+        # properties' proofs) from being built: the search for a failing input needs them
+        rc, out = sh("timeout 3000 make -k -j16 2>&1", cwd=COQ, timeout=3100)
+        if rc != 0:
+            # never leave the compiled form of an earlier version of a file that now fails
+            for m in re.finditer(r'File "\./([A-Za-z0-9_/]+)\.v", line[^\n]*\n(?:[^\n]*\n){0,3}?Error', out):
+                for ext in (".vo", ".vos", ".vok", ".glob"):
+                    try:
+                        os.remove(os.path.join(COQ, m.group(1) + ext))
+                    except OSError:
+                        pass
         return rc == 0, out
 
 
@@ -86,6 +96,16 @@ def check_theorem_file(pid, relpath):
     rc, out = sh(["timeout", "900", "coqc", "-Q", COQ, "Csvq", "-o", out_vo, src], timeout=950)
     axioms = set()
     closed = 0
+    if rc == 0:
+        # Print Assumptions for EVERY theorem of the file, not only those that carry the command themselves
+        mod = "Csvq." + relpath[:-2].replace("/", ".")
+        apath = os.path.join(GEN, pid, "assumptions_%s.v" % pid)
+        open(apath, "w", encoding="utf-8").write("Require Import %s.\n" % mod + "".join("Print Assumptions %s.\n" % n for n in names))
+        rc2, out2 = sh(["timeout", "900", "coqc", "-Q", COQ, "Csvq", apath], cwd=os.path.join(GEN, pid), timeout=950)
+        if rc2 == 0:
+            out = out2
+        else:
+            return dict(ok=False, theorems=names, axioms=[], closed=0, log="Print Assumptions run failed:\n" + out2[-3000:])
     # Print Assumptions prints either "Closed under the global context" or "Axioms:\n name : type ..."
     for blk in re.split(r"\n(?=Axioms:|Closed under)", out):
         if blk.startswith("Closed under"):
@@ -220,8 +240,16 @@ def run_property(pid, cfg, tier, seed, only_id):
     ok, log = build_coq()
     bad = forbidden_constructs()
     thm = dict(ok=False, theorems=[], axioms=[], closed=0, log="")
-    if ok and not bad:
+    if not bad:
+        # whether THIS property's theorems still check is decided by re-checking its theorem file against
+        # what was built (a file of another property that fails does not break this one; a failing
+        # dependency has no .vo, so the re-check fails)
         thm = check_theorem_file(pid, cfg["theorem_file"])
+        if not thm["ok"] and not ok:
+            thm["log"] = (thm["log"] + "\n--- make ---\n" + log)[-4000:]
+        if thm["ok"] and not ok:
+            notes.append("make reported errors in files this property's theorems do not depend on: " + log[-400:])
+        ok = thm["ok"]
     chk = None
     if ok and not bad and thm["ok"] and tier == "thorough" and not only_id:
         # independent re-check of the compiled property file and everything it depends on
